@@ -316,6 +316,17 @@ macro_rules! matrix_views {
             ensure_r!(*from_nested == m, "from-nested-ref", "<&{}>::from(&[[E;n];n])", who);
             ensure_r!(panics(|| m[N]), "index-out-of-range-accepted", "{}[{}] did not panic", who, N);
             ensure_r!(panics(|| m[0][N]), "index-out-of-range-accepted", "{}[0][{}] did not panic", who, N);
+            // the write path has bounds of its own
+            for bad in [N, N + 1, NN, usize::MAX] {
+                let mut w = m;
+                let val = t[0];
+                ensure_r!(panics(move || { w[0][bad] = val; }), "index-mut-out-of-range-accepted", "{}[0][{}] = .. did not panic", who, bad);
+                let mut w = m;
+                let col = m[0];
+                ensure_r!(panics(move || { w[bad] = col; }), "index-mut-out-of-range-accepted", "{}[{}] = column did not panic", who, bad);
+                let mut w = m;
+                ensure_r!(panics(move || { w[bad][0] = val; }), "index-mut-out-of-range-accepted", "{}[{}][0] = .. did not panic", who, bad);
+            }
             // writes through the flat / nested / index views
             let fresh: Vec<E> = tags(d, NN);
             for view in 0..5 {
@@ -501,6 +512,20 @@ fn numeric<E: Elem + cgmath::BaseNum>(d: &mut Draw) -> Outcome {
     ensure!(&q[..] == &want[..] && &q[1..3] == &want[1..3] && &q[..2] == &want[..2] && &q[2..] == &want[2..], "quaternion-index-range", "Quaternion range indexing");
     ensure!(panics(|| q[4]), "index-out-of-range-accepted", "Quaternion[4] did not panic");
     ensure!(panics(|| q[..5].len()), "range-out-of-range-accepted", "Quaternion[..5] did not panic");
+    // the write path has bounds of its own
+    for bad in [4usize, 5, 17, usize::MAX] {
+        let mut w = q;
+        let val = t[4];
+        ensure!(panics(move || { w[bad] = val; }), "index-mut-out-of-range-accepted", "Quaternion[{}] = .. did not panic", bad);
+        let mut w = q;
+        ensure!(panics(move || { let _ = &mut w[bad]; }), "index-mut-out-of-range-accepted", "&mut Quaternion[{}] did not panic", bad);
+    }
+    {
+        let mut w = q;
+        ensure!(panics(move || { let _ = &mut w[..5]; }) , "range-mut-out-of-range-accepted", "&mut Quaternion[..5] did not panic");
+        let mut w = q;
+        ensure!(panics(move || { let _ = &mut w[5..]; }) , "range-mut-out-of-range-accepted", "&mut Quaternion[5..] did not panic");
+    }
     for view in 0..4 {
         for slot in 0..4 {
             let mut w = q;
